@@ -129,7 +129,9 @@ def z_factor_DAK(
 
     rho_guess = 0.27 * pressure_reduced / temp_reduced
     # bracket goes from a z-factor of 5 down to 0.05
-    rho = brentq(residual, rho_guess / 5, rho_guess * 20, xtol=1e-15, rtol=1e-14)
+    # the reduced density scales with pressure, so its absolute tolerance has to as well
+    xtol = max(1e-15 * rho_guess, 5e-324)
+    rho = brentq(residual, rho_guess / 5, rho_guess * 20, xtol=xtol, rtol=1e-14)
     Z_factor = 0.27 * pressure_reduced / (rho * temp_reduced)
     return Z_factor
 
